@@ -31,6 +31,8 @@ CONSTANTS Lens,        \* source lengths (set of naturals)
           ChunkMix,    \* TRUE: one chunk size per settings combination (picked by a hash) instead of all of them
           SeekRevives, \* FALSE: the code as it is (a seek never restarts a transport that reached the end);
                        \* TRUE: Transport::seek_to sets `playing = position < num_frames` (proposed fix)
+          SeekByHeard, \* FALSE: the code as it is (seek_by measures from the transport = prefetch position);
+                       \* TRUE: seek_by measures from the frame heard, resampler.current_frame_index() (proposed fix)
           Wide         \* TRUE: also the input combinations the documentation leaves open
                        \* (loop end <= loop start, start beyond the slice / after the loop end, ...)
 
@@ -208,8 +210,9 @@ Begin ==                                         \* publish position; read_comma
 RdSeekBy ==                                      \* seek_by: relative to the TRANSPORT position
   /\ pc = "rd_sby" /\ act' = <<"RdSeekBy">> /\ ev' = Tau
   /\ IF ~cSeekBy.on THEN pc' = "rd_sto" /\ UNCHANGED <<tmp, sdir, ret2, cSeekBy>>
-     ELSE /\ tmp' = Max(pos + cSeekBy.v, 0)        \* `as usize` saturates at 0
-          /\ sdir' = IF Max(pos + cSeekBy.v, 0) > pos THEN "down" ELSE "up"
+     ELSE LET from == IF SeekByHeard THEN win[2].i ELSE pos IN
+          /\ tmp' = Max(from + cSeekBy.v, 0)        \* `as usize` saturates at 0
+          /\ sdir' = IF Max(from + cSeekBy.v, 0) > pos THEN "down" ELSE "up"
           /\ ret2' = "rd_sto" /\ pc' = "seek_w" /\ cSeekBy' = NoVal
   /\ UNCHANGED <<c, pos, loop, playing, win, tue, frac, rate, rpend, st, ret, k, left, zero, spin,
                  cSeekTo, cLoop, cRate, nf, ncmd, panicked>>
@@ -299,10 +302,14 @@ Next == Pick \/ (INext /\ Monitor)
 Spec == Init /\ [][Next]_vars /\ WF_vars(Next)
 
 \* ---------------------------------------------------------------- checked formulas
-\* every P_C04 clause on every behaviour; a seek during the last three frames is the one
-\* known deviation of the code (the transport has already stopped and is never restarted)
-KnownFinding_SeekInFinalFrames == bad = "seek_in_final_frames"
-PropertyHolds == bad = "" \/ KnownFinding_SeekInFinalFrames
+\* every P_C04 clause on every behaviour.  Before the fix of finding D17 (variant SeekRevives = FALSE)
+\* a seek during the last three frames was the one deviation of the code: the transport had already
+\* stopped and was never restarted; that variant of the model exhibits exactly this violation.
+KnownFinding_SeekInFinalFrames == ~SeekRevives /\ bad = "seek_in_final_frames"
+\* Finding D18 (variant SeekByHeard = FALSE): a negative seek_by while the prefetch position has wrapped to
+\* the loop start saturates at frame 0.
+KnownFinding_SeekBySaturates == ~SeekByHeard /\ bad = "seek_by_saturates_at_zero"
+PropertyHolds == bad = "" \/ KnownFinding_SeekInFinalFrames \/ KnownFinding_SeekBySaturates
 StrictPropertyHolds == bad = ""
 NoPanic == panicked = ""
 \* structure of the implementation state
